@@ -1292,6 +1292,44 @@ def gen_jitarms(src_dir):
         jnames.append(n)
     if len(jnames) != 44:
         raise Unsupported("%d conditional-jump arms recognised (44 expected)" % len(jnames))
+    # memory opcodes: loads, stores, atomic adds
+    XM = {'emit_load': ('XLoad', 4), 'emit_store': ('XStore', 4), 'emit_store_imm32': ('XStoreImm', 4)}
+    sizes = {'OperandSize::S8': '8', 'OperandSize::S16': '16', 'OperandSize::S32': '32', 'OperandSize::S64': '64'}
+
+    def mcall_(e):
+        if e[0] == 'mcall' and show(e[1]) == 'self' and e[2] in XM and show(e[3][0]) == 'mem':
+            ctor, n_ = XM[e[2]]
+            a = e[3][1:]
+            if len(a) != n_ or show(a[0]) not in sizes:
+                raise Unsupported("%s arguments" % e[2])
+            return '%s %s %s' % (ctor, sizes[show(a[0])], ' '.join(arg(x) for x in a[1:]))
+        return call(e)
+    mnames = []
+    for pat, guard, body, ln, attrs in arms:
+        if pat[0] != 'ppath':
+            continue
+        n = pat[1].split('::')[-1]
+        if n not in env or (env[n][1] & 7) not in (0, 1, 2, 3) or env[n][1] == 0x18:
+            continue
+        sts = [st[1] for st in body[1]] if body[0] == 'block' else [body]
+        txt = [show(x).replace(' ', '') for x in sts]
+        if len(sts) == 4 and txt[0] == 'self.emit1(mem,240)' and txt[2] == 'self.emit1(mem,1)' and \
+                sts[1][2] == 'emit_basic_rex' and sts[3][2] == 'emit_modrm_and_displacement':
+            # lock add [dst + off], src
+            w = arg(sts[1][3][1])
+            if [show(x) for x in sts[1][3][2:]] != ['src', 'dst'] or [show(x) for x in sts[3][3][1:3]] != ['src', 'dst']:
+                raise Unsupported("xadd arm %s: operands" % n)
+            calls = ['XLockAdd %s src dst %s' % (w, arg(sts[3][3][3]))]
+        else:
+            calls = [mcall_(x) for x in sts]
+        out.append("Definition gen_jit_mem_%s (insn : insn) (dst src : Z) : list xi :=\n  [%s].\n\n" % (n, '; '.join(calls)))
+        mnames.append(n)
+    if len(mnames) != 22:
+        raise Unsupported("%d memory arms recognised (22 expected): %s" % (len(mnames), mnames))
+    chain = '[]'
+    for n in reversed(mnames):
+        chain = 'if sel_ =? %s then gen_jit_mem_%s insn dst src else\n  %s' % (n, n, chain)
+    out.append("Definition gen_jit_mem (sel_ : Z) (insn : insn) (dst src : Z) : list xi :=\n  %s.\n\n" % chain)
     chain = '(XLoadImm 0 0, 0)'
     for n in reversed(jnames):
         chain = 'if sel_ =? %s then gen_jit_jmp_%s insn dst src else\n  %s' % (n, n, chain)
